@@ -32,6 +32,9 @@ def rules_text(names):
 def configs(tier, rng):
     cs = [("default", DEFAULT)]
     cs += [("single:" + r, [r]) for r in DEFAULT]
+    # the default configuration starts with remove_spaces: without the original spacing a token that lost its line is written
+    # right behind the previous one
+    cs += [("single:spaces+" + r, ["remove_spaces", r]) for r in DEFAULT if r != "remove_spaces"]
     pairs = [(a, b) for a in DEFAULT for b in DEFAULT if a != b]
     cs += [("pair", list(p)) for p in (rng.sample(pairs, 12) if tier == "quick" else pairs)]
     for _ in range(6 if tier == "quick" else 40):
